@@ -14,6 +14,7 @@ import types
 import numpy as np
 import scipy.linalg
 import scipy.signal
+import scipy.fftpack
 
 from . import stubs
 from .array import SymArray, is_symbolic, is_complex_array, to_symarray, dtype_kind, SHADOW
@@ -204,6 +205,14 @@ def _dispatch(orig, stub):
     return wrapper
 
 
+def _fftpack_fft(x, n=None, axis=-1, **kw):
+    return stubs.fft(x, None if n is None else int(n), axis)
+
+
+def _fftpack_ifft(x, n=None, axis=-1, **kw):
+    return stubs.ifft(x, None if n is None else int(n), axis)
+
+
 _INSTALLED = []
 
 
@@ -232,6 +241,8 @@ def install(exclude=_EXCLUDE_DEFAULT):
         (scipy.linalg, 'cholesky', stubs.scipy_cholesky),
         (scipy.linalg, 'cho_solve', stubs.scipy_cho_solve),
         (scipy.signal, 'correlate', stubs.correlate_full),
+        (scipy.fftpack, 'fft', _fftpack_fft),
+        (scipy.fftpack, 'ifft', _fftpack_ifft),
     ):
         orig = getattr(mod, attr)
         _INSTALLED.append((mod.__dict__, attr, orig))
